@@ -98,9 +98,13 @@ def lck1_flush_critical_section(ctx, with_reset=True):
                               'accounted log size is set to the constant 0 while the ingestion '
                               'lock is held (rhs: %s)' % obj.rhs, where(obj))
                 else:
-                    ctx.check('FLW-13', '%s|notify-under-lock' % fn, held,
-                              'waiting ingesters are notified inside the critical section',
-                              where(obj))
+                    # notifying right after the guard is released is as good as under it: the state
+                    # change happened under the lock, a waiter re-checks it under the lock
+                    resets = [(b2, i2) for (r2, b2, i2, _o) in sites if r2 == 'reset']
+                    after = any(b2 == bid or a['cfg'].dominates(b2, bid) for (b2, i2) in resets)
+                    ctx.check('FLW-13', '%s|notify-under-lock' % fn, held or after,
+                              'waiting ingesters are notified after the counter was reset under '
+                              'the lock (inside the critical section: %s)' % held, where(obj))
                 continue
             ctx.check('LCK-1', '%s|%s-under-ingestion-lock' % (fn, role), held,
                       '%s happens while the ingestion lock (%s) is held on every path' % (role, WAL),
@@ -556,6 +560,48 @@ def _source_tokens(lm, F, du, operand):
     return toks
 
 
+def _placement_wrappers(ctx, lm):
+    """Crate functions that build a partition from (a filter/clone of) one Buffer-typed parameter:
+    {function name: index of that parameter}. Lets FLW-16 follow `Partition::from_buffer` through
+    extracted helpers (fixpoint over wrappers of wrappers)."""
+    cache = getattr(ctx, '_placement_wrappers', None)
+    if cache is not None:
+        return cache
+    P = ctx.P
+    W = {}
+    changed = True
+    rounds = 0
+    while changed and rounds < 4:
+        changed = False
+        rounds += 1
+        for b in P.fn_bodies():
+            if b.crate != 'locustdb' or b.name in W or b.name.endswith('Partition::from_buffer'):
+                continue
+            ops = []
+            for blk, t in b.calls():
+                if blk.cleanup:
+                    continue
+                n = norm_callee(t.func or '')
+                if n.endswith('Partition::from_buffer') and len(t.args) > 2:
+                    ops.append(t.args[2])
+                else:
+                    for cb in P.resolve(t.func or '', b.crate):
+                        if cb.name in W and W[cb.name] < len(t.args):
+                            ops.append(t.args[W[cb.name]])
+                            break
+            if len(ops) != 1:
+                continue
+            du = lm.du(b)
+            org = du.origins(base_local(ops[0]))
+            bufargs = [i for i, (ln, ty) in enumerate(b.args)
+                       if ln in org['args'] and re.search(r'\bBuffer\b', ty)]
+            if len(bufargs) == 1:
+                W[b.name] = bufargs[0]
+                changed = True
+    ctx._placement_wrappers = W
+    return W
+
+
 def flw16_offsets_count_placed_rows(ctx):
     ctx.rule('FLW-16', 'row offsets advance by the length of exactly the rows that were just placed '
                        '(snapshot: ephemeral partitions follow each other without gap or overlap; '
@@ -566,7 +612,16 @@ def flw16_offsets_count_placed_rows(ctx):
         F = P.one('mem_store::table::' + fname)
         du = lm.du(F)
         cfg = CFG(F)
-        placed = calls_matching(F, lambda n: n.endswith('Partition::from_buffer'))
+        wrappers = _placement_wrappers(ctx, lm)
+        placed = [(pb, pt, pt.args[2]) for (pb, pt) in
+                  calls_matching(F, lambda n: n.endswith('Partition::from_buffer'))]
+        for blk, t in F.calls():
+            if blk.cleanup:
+                continue
+            for cb in P.resolve(t.func or '', F.crate):
+                if cb.name in wrappers and wrappers[cb.name] < len(t.args):
+                    placed.append((blk, t, t.args[wrappers[cb.name]]))
+                    break
         ctx.require(placed, 'FLW-16: %s does not build a partition from a buffer' % fname)
         # increments: Add on a usize where one side comes from Buffer::len, or fetch_add(len)
         incs = []
@@ -599,12 +654,12 @@ def flw16_offsets_count_placed_rows(ctx):
             ltoks = _source_tokens(lm, F, du, lencall.args[0])
             # the placement this increment belongs to: the from_buffer call in the same branch /
             # iteration (dominating the increment or dominated by it, closest first)
-            cands = [(pb, pt) for (pb, pt) in placed if cfg.dominates(pb.id, ibid) or cfg.dominates(ibid, pb.id)]
+            cands = [x for x in placed if cfg.dominates(x[0].id, ibid) or cfg.dominates(ibid, x[0].id)]
             if not cands:
                 cands = placed
             best = None
-            for (pb, pt) in cands:
-                btoks = _source_tokens(lm, F, du, pt.args[2])
+            for (pb, pt, pop) in cands:
+                btoks = _source_tokens(lm, F, du, pop)
                 if best is None or (btoks == ltoks):
                     best = (pb, pt, btoks)
                 if btoks == ltoks:
